@@ -187,21 +187,31 @@ class Transformer(metaclass=abc.ABCMeta):
 
     def __or__(self, other: tp.Any) -> 'TransformerComposition':
         """Convenient operator for composing (piping) transformers."""
+        # Dependencies are implied when the composition is applied, implying
+        # them here as well would apply non-idempotent dependencies twice.
         if isinstance(other, TransformerComposition):
-            return TransformerComposition(list(self.as_distinct()) + other.transformers)
+            return TransformerComposition(
+                list(self.as_distinct(imply_deps=False)) + other.transformers
+            )
 
         if isinstance(other, Transformer):
-            return TransformerComposition(list(self.as_distinct()) + [other])
+            return TransformerComposition(
+                list(self.as_distinct(imply_deps=False)) + [other]
+            )
 
         return NotImplemented
 
     def __ror__(self, other: tp.Any) -> 'TransformerComposition':
         """Convenient operator for composing (piping) transformers."""
         if isinstance(other, TransformerComposition):
-            return TransformerComposition(other.transformers + list(self.as_distinct()))
+            return TransformerComposition(
+                other.transformers + list(self.as_distinct(imply_deps=False))
+            )
 
         if isinstance(other, Transformer):
-            return TransformerComposition([other] + list(self.as_distinct()))
+            return TransformerComposition(
+                [other] + list(self.as_distinct(imply_deps=False))
+            )
 
         return NotImplemented
 
@@ -238,6 +248,9 @@ class TransformerComposition(Transformer):
         implementation of transformer composition.
 
         """
+        if not imply_deps:
+            yield from self._transformers
+            return
         yield from Transformer.linearize_transformers(self._transformers)
 
     def __eq__(self, other: tp.Any):
